@@ -72,7 +72,7 @@ func cellsOf(c *core.Ctx, s *refavro.Schema, t *gen.T) {
 func runC13(c *core.Ctx, i int) {
 	r := c.Rand(i, 0)
 	ds := gen.GenDataSchema(r, gen.DataOpts{CallerMode: true, MaxDepth: 1 + r.IntN(3)})
-	t := ds.Target(r, ds.S, gen.TargetOpts{PlainNullPrimOnly: true})
+	t := ds.Target(r, ds.S, gen.TargetOpts{PlainNullPrimOnly: true, OmitTags: true})
 	rt := t.RT()
 	c.Journal(c.CurCase(), "schema="+trunc(ds.S.JSON(), 300))
 	codec, err := buildLibCodec(ds.S, rt)
@@ -144,7 +144,7 @@ func init() {
 		Rule: "caller-mode schema (unions with null first and second, int/long/float/double, logical date/timestamp types, fixed, nested records/arrays/maps) + covering Go target (integer widths, float widths, pointers, time.Time and null.* wrappers) + 8 in-range values each, all from (VERIF_SEED, i); " +
 			"distinct_nontrivial = distinct (schema shape, Go type shape) pairings for which a codec was built and at least one value written and read back",
 		Explanation: "Values are produced by decoding a generated datum with the model (so they are inside the schema type's range by construction); the reference decoder must consume exactly the bytes written and yield the datum the model assigns to the value (null position honoured, logical types by the specification's meaning); Codec.Read of those bytes must give the value back.",
-		Assumptions: []string{"struct fields carry no omitempty here; nil pointers occur only under a union; single-/multi-branch unions (explicitly unimplemented on the write side) are not generated"},
+		Assumptions: []string{"a quarter of the struct fields carry omitempty (zero non-pointer values under a union are then expected as null); nil pointers occur only under a union; single-/multi-branch unions (explicitly unimplemented on the write side) are not generated"},
 		Modes: func(tier string) []core.Mode {
 			m := []core.Mode{{Name: "plain", Variant: "plain"}, {Name: "checkptr", Variant: "checkptr", CaseDiv: 4}}
 			if tier == "thorough" {
